@@ -40,6 +40,12 @@ func c16Gen(r *rand.Rand, tier string) []spec.Case {
 			add(spec.C16Case{Cookie: "correct", CfgCookie: "normal", Proto: pick(r, []string{"netrpc", "grpc"}), TLS: pick(r, []string{"none", "provider", "clientcert"}), Sets: st, MuxEnv: pick(r, muxes), Versions: vs, Strace: tier == "thorough" || r.Intn(2) == 0})
 		}
 	}
+	// plugin code that prints to os.Stdout on its own after the handshake, with no host connected
+	for _, pr := range []string{"netrpc", "grpc"} {
+		for _, tl := range []string{"none", "clientcert"} {
+			add(spec.C16Case{Cookie: "correct", CfgCookie: "normal", Proto: pr, TLS: tl, Sets: "legacy", MuxEnv: pick(r, muxes), Chatter: true})
+		}
+	}
 	// socket directories whose names contain characters that are special somewhere
 	for _, sd := range []string{"s%41b%sd", "with space", "q'uo\"te", "ünï", "%v%d%%", "a;b&c"} {
 		for _, mx := range []string{"unset", "true", "false"} {
@@ -77,7 +83,7 @@ func c16Judge(c spec.Case, evs []spec.Event, d *Death) CaseResult {
 		return CaseResult{Verdict: "inconclusive", Inconcl: o.SetupErr}
 	}
 	res := CaseResult{Verdict: "held", Counters: map[string]int{}}
-	res.Class = fmt.Sprintf("cookie=%s cfg=%s %s tls=%s mux=%s traced=%v versions=%q pretest=%v sockdir=%q", p.Cookie, p.CfgCookie, p.Proto, p.TLS, p.MuxEnv, p.Strace, p.Versions, p.PreTest, p.SockDir)
+	res.Class = fmt.Sprintf("cookie=%s cfg=%s %s tls=%s mux=%s traced=%v versions=%q pretest=%v sockdir=%q chatter=%v", p.Cookie, p.CfgCookie, p.Proto, p.TLS, p.MuxEnv, p.Strace, p.Versions, p.PreTest, p.SockDir, p.Chatter)
 	res.Sample = map[string]any{"case": p, "exited": o.Exited, "exit_code": o.ExitCode, "stdout": trunc(string(o.Stdout), 120), "sockets": len(o.Sockets), "binds": o.Binds, "listen_before_line": o.ListenBefore, "writes_to_fd1": o.Stdout1Writes}
 	viol := func(key, msg string) {
 		res.Verdict = "violated"
